@@ -19,8 +19,8 @@ def run(ctx, replay=None):
         ex = [dict(shape="chain", max_env=2, flags="m,c,o", extra="a", faults=True),
               dict(shape="star", max_env=2, flags="m,c,o", faults=True),
               dict(shape="two", max_env=2, flags="m,c", faults=True),
-              dict(shape="chain", max_env=0, flags="m,c,o,e", extra="a", faults=True, random_walks=6000, walk_len=10),
+              dict(shape="chain", max_env=0, flags="m,c,o,e", extra="a", faults=True, random_walks=40000, walk_len=10),
               dict(shape="chain", max_env=2, flags="m,c", faults=True, env="SetIssuer,Edit,DeleteArt,StripKey"),
-              dict(shape="two", max_env=0, flags="m,c,o,e", extra="a", faults=True, random_walks=3000, walk_len=10,
+              dict(shape="two", max_env=0, flags="m,c,o,e", extra="a", faults=True, random_walks=20000, walk_len=12,
                    env="Edit,Touch,DeleteArt,Truncate,StripKey,ResaveArt,Replace,MakeCsr,EditProfile,Expire,SetIssuer,RemoveConfig,AddConfig")]
     return repo.run_lifecycle(ctx, "C15", mc, ex, "fault_enumeration", ASSUME, replay)
